@@ -756,6 +756,35 @@ func (c *tctx) stmts(list []ast.Stmt, k func() string) string {
 				}
 			}
 		}
+		// n := binary.PutUvarint(dst[lo:], v) (also with += ): writes into dst, yields the number of bytes
+		if len(s.Lhs) == 1 && len(s.Rhs) == 1 {
+			if ce, ok := s.Rhs[0].(*ast.CallExpr); ok && src(ce.Fun) == "binary.PutUvarint" {
+				lhs, okL := s.Lhs[0].(*ast.Ident)
+				dst, lo := ce.Args[0], "0"
+				var g []string
+				if se, ok := dst.(*ast.SliceExpr); ok && se.High == nil && !se.Slice3 {
+					dst = se.X
+					if se.Low != nil {
+						lo, g, _ = c.expr(se.Low, "int")
+					}
+				}
+				if did, ok := dst.(*ast.Ident); ok && okL && c.kinds[did.Name] == "bytes" {
+					v, g2, _ := c.expr(ce.Args[1], "int")
+					g = append(append(g, g2...), fmt.Sprintf("(0 <=? %s)", lo), fmt.Sprintf("(%s <=? go_len %s)", lo, did.Name),
+						fmt.Sprintf("(go_uvarint_len %s <=? go_len %s - %s)", v, did.Name, lo)) // PutUvarint panics on a short buffer
+					val := fmt.Sprintf("(go_uvarint_len %s)", v)
+					switch s.Tok {
+					case token.DEFINE, token.ASSIGN:
+					case token.ADD_ASSIGN:
+						val = fmt.Sprintf("(%s + go_uvarint_len %s)", lhs.Name, v)
+					default:
+						c.bad(s, "assignment operator")
+					}
+					c.kinds[lhs.Name] = "int"
+					return c.withPre(guarded(g, fmt.Sprintf("(let %s := go_put_uvarint %s %s %s in let %s := %s in %s)", did.Name, did.Name, lo, v, lhs.Name, val, rest())))
+				}
+			}
+		}
 		if len(s.Lhs) != len(s.Rhs) {
 			c.bad(s, "assignment")
 		}
@@ -1130,7 +1159,7 @@ func translateFn(w *strings.Builder, p *pkg, file, recv, name string) {
 			}
 		case *ast.CallExpr:
 			f := src(st.Fun)
-			if f == "copy" || f == "binary.BigEndian.PutUint16" {
+			if f == "copy" || f == "binary.BigEndian.PutUint16" || f == "binary.PutUvarint" {
 				a := st.Args[0]
 				if se, ok := a.(*ast.SliceExpr); ok {
 					a = se.X
@@ -1209,6 +1238,8 @@ func emitTranslated(path string, msg, topics, sess, svc *pkg) bool {
 	translate(&w, msg, "message.go", "Type", "DefaultFlags")
 	translate(&w, msg, "header.go", "", "nextPacketID")
 	translate(&w, msg, "header.go", "header", "decode")
+	translate(&w, msg, "header.go", "header", "encode")
+	translate(&w, msg, "header.go", "header", "SetRemainingLength")
 	translate(&w, sess, "ackqueue.go", "Ackqueue", "index")
 	translate(&w, sess, "ackqueue.go", "Ackqueue", "full")
 	translate(&w, sess, "ackqueue.go", "Ackqueue", "empty")
